@@ -5,7 +5,7 @@ import re
 
 from . import common as c
 
-SUPPORT = ["Conc/NodeLock.v", "Conc/Lockset.v"]
+SUPPORT = ["Conc/NodeLock.v", "Conc/NodeTree.v", "Conc/Lockset.v"]
 
 CLAIM = {
     "gens": ["NodeAccess"],
@@ -14,15 +14,17 @@ CLAIM = {
              "lock, assign writing l, p and then storing t atomically, readers of the raw text under rlock) with an arbitrary scheduler and any "
              "number of threads: for every schedule of Raw / encodeRaw-shaped and checkRaw-based reads (Get, Index, GetByPath, typed accessors, "
              "Interface, Map, Array) on one shared node starting raw, every read returns its sequential result and the final node is the "
-             "sequential one (invariant proof, all interleavings of single field accesses). REFUTED for MarshalJSON as pinned (fast path reads "
-             "l, p after isRaw() without the read lock: witness schedule with a torn text) and for the parse-error path of parseRaw (the node, "
-             "mutex pointer included, is overwritten under the lock and never unlocked: waiting readers hang). (2) over the access table "
-             "regenerated from /repo/ast on every run: every access to t / l / p / *self reachable from the documented read operations obeys "
-             "the lockset discipline in every calling context or is in the listed, categorised exceptions; the unjustified ones are exactly the "
-             "two recorded defects; assign / parseRaw / Raw / encodeRaw / checkRaw have the shape the model assumes. The Go memory model below "
+             "sequential one (invariant proof, all interleavings of single field accesses); lifted to two levels (root + children that are "
+             "raw nodes with their own mutex, Get/Index/GetByPath chains = OpGet on the root then any read on the child) by a projection "
+             "argument: every read at every node is sequentially correct and a child is only reached while the root is parsed. The model also contains the two defective variants "
+             "repaired by fca300b / 30f25f0 (MarshalJSON fast path without the read lock: witness schedule with a torn text; parse error "
+             "overwriting the node and its mutex under the lock: waiting readers hang) with their refutations, as regression statements. "
+             "(2) over the access table regenerated from /repo/ast on every run: every access to t / l / p / *self reachable from the "
+             "documented read operations obeys the lockset discipline in every calling context or is in the listed, categorised exceptions; "
+             "none is left unjustified; MarshalJSON / assign / parseRaw / Raw / encodeRaw / checkRaw have the shape the model assumes. The Go memory model below "
              "locks and atomics is not modelled; real interleavings are sampled by -race runs whose reports are evidence, not proof."),
     "note": ("Trusted: Coq kernel + vm_compute, the translator tools/tx (syntactic lock/guard tagging), the Go race detector, the harness. "
-             "One node is modelled; children are independent instances of the same protocol."),
+             "Two levels are modelled (root + children with their own locks)."),
     "technique": "Coq invariant proof over an interleaving model + lockset check over a table regenerated from source; -race differential runs",
 }
 
@@ -95,11 +97,11 @@ def run(ctx):
                                      "sequential execution of the same operations on a fresh node as the oracle for results"]
     ctx.assumptions = [
         "sequentially consistent interleaving of single field accesses; the Go memory model beneath sync.RWMutex and sync/atomic is not modelled",
-        "one shared node is modelled; children created by the load-once parse are raw nodes with their own mutex, i.e. independent instances of the same protocol; scalars are immutable",
+        "a root and its container children are modelled (Conc/NodeTree.v): children created by the load-once parse are raw nodes with their own mutex, all existing raw from the start and reachable only through the parsed root; deeper levels repeat the same step; scalars are immutable",
         "the lock/guard tags of Gen/NodeAccess.v are syntactic (statement-tree walk of tools/tx/nodeaccess.go); loops are entered with the state at loop entry",
         "LazyOnly / LazyCallee categories rely on: a node that starts raw and is parsed through parseRaw with a mutex never becomes lazy (Parser.Parse with loadOnce returns no lazy node)",
         "Raw and MarshalJSON results are compared as JSON values (a parsed node is re-encoded, the raw text keeps its spelling)",
-        "refuted on the pinned tree: MarshalJSON fast path (" + KF_MARSHAL + "), parse error under the lock (" + KF_PARSE + "); Load() after a partial lazy traversal (" + KF_LAZY + ") is outside the model (the node does not start raw)",
+        "repaired (fca300b, 30f25f0) and kept as regression witnesses: MarshalJSON fast path (" + KF_MARSHAL + "), parse error under the lock (" + KF_PARSE + ") - a race report or hang of these signatures is a violation again; Load() after a partial lazy traversal (" + KF_LAZY + ") is a known finding outside the model (the node does not start raw)",
     ]
     p_ok = c.standard_P(ctx, CLAIM["gens"], SUPPORT)
     problems = []
